@@ -49,6 +49,9 @@ def make_cfg(r, seed, n_ops=None, probe_p=0.0):
         cfg["root_name"] = "a"  # names repeating the root's own component (prefix-rewrite corner)
     if r.random() < 0.25:
         cfg["names"] = ["a", "ab", "b"]  # names that are string prefixes of each other
+    if r.random() < 0.15:
+        # no symbolic link is ever created by these histories: asking for links to be followed must change nothing
+        cfg["follow_symlink"] = True
     if r.random() < 0.4:
         cfg["out_ops"] = True  # other activity on directories after they left the tree must not leak into the stream
     return cfg
